@@ -4,7 +4,7 @@ run in parallel on all cores, and a crash of the library takes down exactly one 
 import json, os, select, signal, subprocess, sys, time, multiprocessing
 
 VERIF = os.path.dirname(os.path.dirname(os.path.abspath(__file__)))
-MC_BIN = "/verif/.build/release/mc"        # absolute: mc/.cargo/config.toml sets target-dir=/verif/.build (also used from vp-run snapshots)
+MC_BIN = os.environ.get("VERIF_MC_BIN") or "/verif/.build/release/mc"        # absolute: mc/.cargo/config.toml sets target-dir=/verif/.build (also used from vp-run snapshots)
 RULES = "/repo/Rules"
 WORK = "/verif/.work"
 HOME = os.path.join(WORK, "home")          # empty: the library reads ~/.config/MathCAT/prefs.yaml
